@@ -44,6 +44,7 @@ type Engine struct {
 	cuts       map[string]int
 	unknownMsg map[string]int
 	openFindings map[string]bool
+	replayModel []modelInput
 	funcByName map[string]*ssa.Function
 }
 
